@@ -7,6 +7,9 @@ Local Open Scope N_scope.
 
 Ltac Zify.zify_post_hook ::= Z.to_euclidean_division_equations.
 
+Lemma W_2HALF : W = 2 * HALF.
+Proof. rewrite W_val, HALF_val. reflexivity. Qed.
+
 (** ** growth policy of a_vec_setm (with FIX C04-5) *)
 Lemma pow_fuel : HALF * 2 ^ 128 < 3 ^ 128.
 Proof. rewrite HALF_val. reflexivity. Qed.
@@ -113,3 +116,549 @@ Proof.
     + unfold abs. cbn [a_num a_sl]. apply nth_error_ext; intro k. ne_norm. ne_split; ne_leaf.
   - eexists. eexists. eexists. eexists. split; [reflexivity|]. right. auto.
 Qed.
+
+(** ** small facts about the specification functions *)
+Lemma arr_insert_put' : forall a idx v, arr_inv a -> a_num a < a_mem a ->
+    exists a2 a3 off,
+      arr_insert a idx = Ok (a2, off) /\ put a2 off v = Ok a3
+      /\ arr_inv a3 /\ a_siz a3 = a_siz a /\ a_mem a3 = a_mem a /\ a_num a3 = a_num a + 1
+      /\ abs a3 = sp_insert (abs a) idx (fit (a_siz a) v)
+      /\ slot_ptr (a_siz a) (a_mem a) (N.min idx (a_num a)) off
+      /\ content_at a3 off (a_num a3) = Some (fit (a_siz a) v).
+Proof.
+  intros a idx v I H. destruct (arr_insert_put a idx v I H) as [a3 [off [E R]]].
+  destruct (arr_insert a idx) as [[a2 off2]|e] eqn:EI; cbn [bind fst snd] in E; [|discriminate].
+  destruct (put a2 off2 v) as [a3'|e] eqn:EP; cbn [bind] in E; [|discriminate].
+  injection E as <- <-. exists a2, a3', off2. auto.
+Qed.
+
+Lemma arr_inc_put : forall a v, arr_inv a -> a_num a < a_mem a ->
+    exists a2 a3 off,
+      arr_inc a = (a2, off) /\ put a2 off v = Ok a3
+      /\ arr_inv a3 /\ a_siz a3 = a_siz a /\ a_mem a3 = a_mem a /\ a_num a3 = a_num a + 1
+      /\ abs a3 = abs a ++ [fit (a_siz a) v]
+      /\ slot_ptr (a_siz a) (a_mem a) (a_num a) off
+      /\ content_at a3 off (a_num a3) = Some (fit (a_siz a) v).
+Proof.
+  intros a v I H. destruct (arr_insert_put' a (a_num a) v I H) as [a2 [a3 [off [E1 [E2 [R1 [R2 [R3 [R4 [R5 [R6 R7]]]]]]]]]]].
+  unfold arr_insert in E1. rewrite N.ltb_irrefl in E1.
+  assert (E1' : arr_inc a = (a2, off)) by congruence.
+  exists a2, a3, off. split; [exact E1'|]. split; [exact E2|]. split; [exact R1|].
+  split; [exact R2|]. split; [exact R3|]. split; [exact R4|]. split; [|split; [|exact R7]].
+  - rewrite R5. unfold sp_insert, clampn. rewrite (abs_length a I), N.min_id.
+    rewrite <- (abs_length a I), nlen_nat.
+    change (@length elem) with (@length (list byte)). rewrite firstn_all, skipn_all. reflexivity.
+  - rewrite N.min_id in R6. exact R6.
+Qed.
+
+Lemma vec_inv_with : forall v a', vec_inv v -> arr_inv a' -> (a_mem (v_arr v) = 0 -> a_mem a' = 0) ->
+    vec_inv (with_arr v a').
+Proof. intros v a' [I P] I' H. split; cbn [with_arr v_arr v_ptr]; auto. Qed.
+
+Lemma abs_nil_iff : forall a, arr_inv a -> (abs a = [] <-> a_num a = 0).
+Proof.
+  intros a I. pose proof (abs_length_nat a I) as L. split; intro H.
+  - rewrite H in L. cbn in L. lia.
+  - destruct (abs a); [reflexivity|cbn in L; lia].
+Qed.
+
+Lemma sp_remove_0 : forall l, l <> [] -> sp_remove l 0 = tl l /\ sp_removed l 0 = hd [] l.
+Proof.
+  intros l H. unfold sp_remove, sp_removed, rm_pos. rewrite N.min_0_l. cbn [N.to_nat].
+  destruct l; [congruence|]. split; reflexivity.
+Qed.
+
+Lemma sp_remove_last : forall l, l <> [] -> removelast l = sp_remove l (nlen l - 1).
+Proof.
+  intros l H. unfold sp_remove, rm_pos. rewrite N.min_id.
+  destruct (@exists_last _ l H) as [t [x E]]. subst l. rewrite removelast_last.
+  unfold nlen. rewrite app_length. cbn [length].
+  replace (N.to_nat (N.of_nat (length t + 1) - 1)) with (length t) by lia.
+  rewrite firstn_app, Nat.sub_diag, firstn_all, firstn_O, app_nil_r.
+  rewrite skipn_all2 by (rewrite app_length; cbn; lia). rewrite app_nil_r. reflexivity.
+Qed.
+
+Ltac fin := unfold same, null_ptr; splits; auto; try lia; try reflexivity.
+
+(** ** one operation of the vector *)
+Section Steps.
+  Variable cmp : elem -> elem -> comparison.
+  Notation le := (VecSpec.le cmp).
+  Notation sorted := (VecSpec.sorted cmp).
+  Hypothesis le_trans : forall a b c, le a b -> le b c -> le a c.
+  Hypothesis le_total : forall a b, le a b \/ le b a.
+
+  Definition step_post (k : kind) (a : arr) (o : op) (a' : arr) (r : out) : Prop :=
+    o_err r = None /\
+    op_spec cmp k (a_siz a) (a_mem a) (abs a) o (o_ret r) (o_dtor r) (a_siz a') (a_mem a') (abs a').
+
+  Lemma ptr_none_spec : forall siz mem l, ptr_spec siz mem l (RPtr None None) None.
+  Proof. intros. reflexivity. Qed.
+
+  Ltac setm_cases h v need Iv :=
+    let h1 := fresh "h1" in let v1 := fresh "v1" in let rc := fresh "rc" in let ev := fresh "ev" in
+    let E := fresh "E" in
+    destruct (vec_setm_spec h v need Iv)
+      as [h1 [v1 [rc [ev [E [[-> [Iv1 [Hm1 [Hm2 [Hz [Hnum Habs]]]]]] | [-> [-> Hlt]]]]]]]];
+    rewrite E; cbn [bind].
+
+  Theorem vec_step_refines : forall h v o,
+      vec_inv v -> op_pre KVec (a_siz (v_arr v)) o ->
+      exists h' v' r, vec_step cmp h v o = Ok (h', v', r) /\ vec_inv v'
+                      /\ step_post KVec (v_arr v) o (v_arr v') r.
+  Proof.
+    intros h v o Iv Hpre. pose proof Iv as [I Hptr]. set (a := v_arr v) in *.
+    pose proof (inv_siz a I) as Hs. pose proof (inv_num a I) as Hn.
+    pose proof (mem_lt_half a I) as Hmh. pose proof HALF_lt_W as HW.
+    pose proof (abs_length a I) as AL. pose proof W_2HALF as HW2.
+    unfold step_post.
+    destruct o as [mem|n dt fill|z dt| | | |key0|key|idx x|x|x|idx| | |idx vs|idx cnt dt|idx|idx| |];
+      cbn [vec_step]; fold a.
+    - (* setm *)
+      setm_cases h v mem Iv; try (fold a in Hm1, Hm2, Hz, Hnum, Habs); try (fold a in Hlt).
+      + eexists. eexists. eexists. split; [reflexivity|]. split; [exact Iv1|]. split; [reflexivity|].
+        cbn [op_spec o_ret o_dtor]. left. rewrite Hz, Habs. fin.
+      + eexists. eexists. eexists. split; [reflexivity|]. split; [exact Iv|]. split; [reflexivity|].
+        cbn [op_spec o_ret o_dtor]. right. fin.
+    - (* setn *)
+      setm_cases h v n Iv; try (fold a in Hm1, Hm2, Hz, Hnum, Habs); try (fold a in Hlt).
+      + change (A_SUCCESS =? 0) with true. cbv iota.
+        destruct Iv1 as [I1 P1]. set (a1 := v_arr v1) in *.
+        rewrite (arr_dtor_down_spec a1 n dt I1). cbn [bind].
+        destruct (arr_setn_fill a1 n fill I1 Hm1) as [a3 [E3 [I3 [Z3 [M3 A3]]]]].
+        rewrite E3. cbn [bind].
+        eexists. eexists. eexists. split; [reflexivity|].
+        split; [apply vec_inv_with; [split; assumption|exact I3|cbn [v_arr]; fold a1; lia]|].
+        split; [reflexivity|].
+        cbn [op_spec o_ret o_dtor with_arr v_arr]. left. rewrite Z3, M3, A3, Habs, Hz. fin.
+      + change (A_OMEMORY =? 0) with false. cbv iota.
+        eexists. eexists. eexists. split; [reflexivity|]. split; [exact Iv|]. split; [reflexivity|].
+        cbn [op_spec o_ret o_dtor]. right. unfold same. fin.
+    - (* setz *)
+      rewrite (arr_dtor_down_spec a 0 dt I). cbn [bind].
+      destruct (arr_setz_spec a z I) as [I3 [Z3 [N3 [M3 A3]]]]. cbv zeta in *.
+      set (a3 := arr_setz _ z) in *.
+      eexists. eexists. eexists. split; [reflexivity|].
+      split; [apply vec_inv_with; [exact Iv|exact I3|fold a; intro H0; rewrite M3, H0; reflexivity]|].
+      split; [reflexivity|].
+      cbn [op_spec o_ret o_dtor with_arr v_arr]. rewrite A3, M3, Z3. cbn [N.to_nat skipn]. fin.
+    - (* sort *)
+      destruct (arr_sort_spec cmp a I) as [a3 [E3 [I3 [Z3 [M3 A3]]]]]. rewrite E3. cbn [bind].
+      eexists. eexists. eexists. split; [reflexivity|].
+      split; [apply vec_inv_with; [exact Iv|exact I3|fold a; lia]|]. split; [reflexivity|].
+      cbn [op_spec o_ret o_dtor with_arr v_arr]. fin.
+    - (* sort_fore *)
+      destruct (arr_sort_fore_spec cmp le_trans le_total a I) as [a3 [E3 [I3 [Z3 [M3 [N3 [P3 A3]]]]]]].
+      rewrite E3. cbn [bind].
+      eexists. eexists. eexists. split; [reflexivity|].
+      split; [apply vec_inv_with; [exact Iv|exact I3|fold a; lia]|]. split; [reflexivity|].
+      cbn [op_spec o_ret o_dtor with_arr v_arr]. rewrite AL. fin.
+    - (* sort_back *)
+      destruct (arr_sort_back_spec cmp le_trans le_total a I) as [a3 [E3 [I3 [Z3 [M3 [N3 [P3 A3]]]]]]].
+      rewrite E3. cbn [bind].
+      eexists. eexists. eexists. split; [reflexivity|].
+      split; [apply vec_inv_with; [exact Iv|exact I3|fold a; lia]|]. split; [reflexivity|].
+      cbn [op_spec o_ret o_dtor with_arr v_arr]. rewrite AL. fin.
+    - (* push_sort *)
+      cbv zeta. setm_cases h v (wadd (a_num a) 1) Iv; try (fold a in Hm1, Hm2, Hz, Hnum, Habs); try (fold a in Hlt).
+      + change (A_SUCCESS =? 0) with true. cbv iota.
+        destruct Iv1 as [I1 P1]. set (a1 := v_arr v1) in *.
+        rewrite wadd_eq in Hm1 by lia.
+        destruct (arr_push_sort_put cmp le_trans le_total a1 (fit (a_siz a) key0) I1 ltac:(lia))
+          as [a2 [a3 [off [p [E1 [E2 [I3 [Z3 [M3 [N3 [SP [Hp [A3 [U3 C3]]]]]]]]]]]]]].
+        rewrite E1. cbn [bind]. rewrite E2. cbn [bind].
+        eexists. eexists. eexists. split; [reflexivity|].
+        split; [apply vec_inv_with; [split; assumption|exact I3|cbn [v_arr]; fold a1; lia]|].
+        split; [reflexivity|].
+        cbn [op_spec o_ret o_dtor with_arr v_arr vec_ptr_ret]. right.
+        rewrite C3, Hz, fit_idem. exists off, p.
+        rewrite Hz in SP. rewrite Hz, fit_idem, Habs in A3. rewrite Habs in U3.
+        splits; auto; try lia.
+        * rewrite M3. exact SP.
+        * intro Hsorted. rewrite A3. unfold sp_push_sort. rewrite <- (U3 Hsorted). reflexivity.
+      + change (A_OMEMORY =? 0) with false. cbv iota.
+        eexists. eexists. eexists. split; [reflexivity|]. split; [exact Iv|]. split; [reflexivity|].
+        cbn [op_spec o_ret o_dtor]. left. rewrite wadd_eq in Hlt by lia. unfold same, null_ptr.
+        rewrite AL. fin.
+    - (* search *)
+      rewrite (arr_search_spec cmp a _ I). cbn [bind].
+      eexists. eexists. eexists. split; [reflexivity|]. split; [exact Iv|]. split; [reflexivity|].
+      cbn [op_spec o_ret o_dtor]. unfold same. fin.
+    - (* insert *)
+      setm_cases h v (wadd (a_num a) 1) Iv; try (fold a in Hm1, Hm2, Hz, Hnum, Habs); try (fold a in Hlt).
+      + change (A_SUCCESS =? 0) with true. cbv iota.
+        destruct Iv1 as [I1 P1]. set (a1 := v_arr v1) in *.
+        rewrite wadd_eq in Hm1 by lia.
+        destruct (arr_insert_put' a1 idx x I1 ltac:(lia))
+          as [a2 [a3 [off [E1 [E2 [I3 [Z3 [M3 [N3 [A3 [SP C3]]]]]]]]]]].
+        rewrite E1. cbn [bind]. rewrite E2. cbn [bind].
+        eexists. eexists. eexists. split; [reflexivity|].
+        split; [apply vec_inv_with; [split; assumption|exact I3|cbn [v_arr]; fold a1; lia]|].
+        split; [reflexivity|].
+        cbn [op_spec o_ret o_dtor with_arr v_arr vec_ptr_ret]. right.
+        rewrite C3, Hz. exists off. rewrite Hz, Hnum in SP. rewrite Hz, Habs in A3.
+        rewrite AL, M3. splits; auto; try lia.
+      + change (A_OMEMORY =? 0) with false. cbv iota.
+        eexists. eexists. eexists. split; [reflexivity|]. split; [exact Iv|]. split; [reflexivity|].
+        cbn [op_spec o_ret o_dtor]. left. rewrite wadd_eq in Hlt by lia. unfold same, null_ptr.
+        rewrite AL. fin.
+    - (* push_fore *)
+      setm_cases h v (wadd (a_num a) 1) Iv; try (fold a in Hm1, Hm2, Hz, Hnum, Habs); try (fold a in Hlt).
+      + change (A_SUCCESS =? 0) with true. cbv iota.
+        destruct Iv1 as [I1 P1]. set (a1 := v_arr v1) in *.
+        rewrite wadd_eq in Hm1 by lia.
+        destruct (arr_insert_put' a1 0 x I1 ltac:(lia))
+          as [a2 [a3 [off [E1 [E2 [I3 [Z3 [M3 [N3 [A3 [SP C3]]]]]]]]]]].
+        rewrite E1. cbn [bind]. rewrite E2. cbn [bind].
+        eexists. eexists. eexists. split; [reflexivity|].
+        split; [apply vec_inv_with; [split; assumption|exact I3|cbn [v_arr]; fold a1; lia]|].
+        split; [reflexivity|].
+        cbn [op_spec o_ret o_dtor with_arr v_arr vec_ptr_ret]. right.
+        rewrite C3, Hz. exists off. rewrite Hz, N.min_0_l in SP. rewrite Hz, Habs in A3.
+        rewrite M3. splits; auto; try lia.
+        rewrite A3. unfold sp_insert, clampn. rewrite N.min_0_l. reflexivity.
+      + change (A_OMEMORY =? 0) with false. cbv iota.
+        eexists. eexists. eexists. split; [reflexivity|]. split; [exact Iv|]. split; [reflexivity|].
+        cbn [op_spec o_ret o_dtor]. left. rewrite wadd_eq in Hlt by lia. unfold same, null_ptr.
+        rewrite AL. fin.
+    - (* push_back *)
+      setm_cases h v (wadd (a_num a) 1) Iv; try (fold a in Hm1, Hm2, Hz, Hnum, Habs); try (fold a in Hlt).
+      + change (A_SUCCESS =? 0) with true. cbv iota.
+        destruct Iv1 as [I1 P1]. set (a1 := v_arr v1) in *.
+        rewrite wadd_eq in Hm1 by lia.
+        destruct (arr_inc_put a1 x I1 ltac:(lia))
+          as [a2 [a3 [off [E1 [E2 [I3 [Z3 [M3 [N3 [A3 [SP C3]]]]]]]]]]].
+        rewrite E1. rewrite E2. cbn [bind].
+        eexists. eexists. eexists. split; [reflexivity|].
+        split; [apply vec_inv_with; [split; assumption|exact I3|cbn [v_arr]; fold a1; lia]|].
+        split; [reflexivity|].
+        cbn [op_spec o_ret o_dtor with_arr v_arr vec_ptr_ret]. right.
+        rewrite C3, Hz. exists off. rewrite Hz, Hnum in SP. rewrite Hz, Habs in A3.
+        rewrite AL, M3. splits; auto; try lia.
+      + change (A_OMEMORY =? 0) with false. cbv iota.
+        eexists. eexists. eexists. split; [reflexivity|]. split; [exact Iv|]. split; [reflexivity|].
+        cbn [op_spec o_ret o_dtor]. left. rewrite wadd_eq in Hlt by lia. unfold same, null_ptr.
+        rewrite AL. fin.
+    - (* remove *)
+      destruct (arr_remove_spec a idx I) as [a3 [o3 [E3 [I3 [Z3 [M3 R3]]]]]]. rewrite E3. cbn [bind].
+      eexists. eexists. eexists. split; [reflexivity|].
+      split; [apply vec_inv_with; [exact Iv|exact I3|fold a; lia]|]. split; [reflexivity|].
+      cbn [op_spec o_ret o_dtor with_arr v_arr]. splits; auto.
+      destruct R3 as [[N0 [-> ->]]|[Np [N3 [A3 [off [p [-> [SP [Hp C3]]]]]]]]].
+      + left. cbn [vec_ptr_ret]. unfold null_ptr. rewrite (abs_nil_iff a I). auto.
+      + right. split; [rewrite (abs_nil_iff a I); lia|]. split; [exact A3|].
+        exists off, p. cbn [vec_ptr_ret]. rewrite C3, M3, (abs_length a3 I3). auto.
+    - (* pull_fore *)
+      destruct (arr_remove_spec a 0 I) as [a3 [o3 [E3 [I3 [Z3 [M3 R3]]]]]]. rewrite E3. cbn [bind].
+      eexists. eexists. eexists. split; [reflexivity|].
+      split; [apply vec_inv_with; [exact Iv|exact I3|fold a; lia]|]. split; [reflexivity|].
+      cbn [op_spec o_ret o_dtor with_arr v_arr]. splits; auto.
+      destruct R3 as [[N0 [-> ->]]|[Np [N3 [A3 [off [p [-> [SP [Hp C3]]]]]]]]].
+      + left. cbn [vec_ptr_ret]. unfold null_ptr. rewrite (abs_nil_iff a I). auto.
+      + right. assert (Hne : abs a <> []) by (rewrite (abs_nil_iff a I); lia).
+        destruct (sp_remove_0 (abs a) Hne) as [S1 S2].
+        split; [exact Hne|]. split; [rewrite A3; exact S1|].
+        exists off, p. cbn [vec_ptr_ret]. rewrite C3, M3, (abs_length a3 I3), S2. auto.
+    - (* pull_back *)
+      destruct (arr_pull_back_spec a I) as [a3 [o3 [E3 [I3 [Z3 [M3 R3]]]]]]. rewrite E3.
+      eexists. eexists. eexists. split; [reflexivity|].
+      split; [apply vec_inv_with; [exact Iv|exact I3|fold a; lia]|]. split; [reflexivity|].
+      cbn [op_spec o_ret o_dtor with_arr v_arr]. splits; auto.
+      destruct R3 as [[N0 [-> ->]]|[Np [N3 [A3 [off [p [-> [SP [Hp C3]]]]]]]]].
+      + left. cbn [vec_ptr_ret]. unfold null_ptr. rewrite (abs_nil_iff a I). auto.
+      + right. split; [rewrite (abs_nil_iff a I); lia|]. split; [exact A3|].
+        exists off, p. cbn [vec_ptr_ret]. rewrite C3, M3, (abs_length a3 I3). auto.
+    - (* store *)
+      cbn [op_pre] in Hpre.
+      setm_cases h v (wadd (a_num a) (nlen vs)) Iv; try (fold a in Hm1, Hm2, Hz, Hnum, Habs); try (fold a in Hlt).
+      + change (A_SUCCESS =? 0) with true. cbv iota.
+        destruct Iv1 as [I1 P1]. set (a1 := v_arr v1) in *.
+        rewrite wadd_eq in Hm1 by lia.
+        destruct (arr_store_spec a1 idx vs I1 ltac:(lia)) as [a3 [E3 [I3 [Z3 [M3 A3]]]]].
+        rewrite E3. cbn [bind].
+        eexists. eexists. eexists. split; [reflexivity|].
+        split; [apply vec_inv_with; [split; assumption|exact I3|cbn [v_arr]; fold a1; lia]|].
+        split; [reflexivity|].
+        cbn [op_spec o_ret o_dtor with_arr v_arr]. right.
+        rewrite Hz, Habs in A3. rewrite M3. splits; auto; try lia.
+      + change (A_OMEMORY =? 0) with false. cbv iota.
+        eexists. eexists. eexists. split; [reflexivity|]. split; [exact Iv|]. split; [reflexivity|].
+        cbn [op_spec o_ret o_dtor]. left. rewrite wadd_eq in Hlt by lia. unfold same.
+        rewrite AL. fin.
+    - (* erase *)
+      destruct (arr_erase_spec a idx cnt dt I) as [a3 [rc [d [E3 [I3 [Z3 [M3 R3]]]]]]]. rewrite E3. cbn [bind].
+      eexists. eexists. eexists. split; [reflexivity|].
+      split; [apply vec_inv_with; [exact Iv|exact I3|fold a; lia]|]. split; [reflexivity|].
+      cbn [op_spec o_ret o_dtor with_arr v_arr]. rewrite AL. splits; auto.
+      destruct R3 as [[Hi [-> [A3 ->]]]|[Hi [-> [-> ->]]]]; [left|right]; auto.
+    - (* at *)
+      eexists. eexists. eexists. split; [reflexivity|]. split; [exact Iv|]. split; [reflexivity|].
+      cbn [op_spec o_ret o_dtor]. unfold same, arr_at. splits; auto.
+      destruct (N.ltb_spec idx (a_mem a)); [apply ptr_ret_spec; assumption|apply ptr_none_spec].
+    - (* of *)
+      eexists. eexists. eexists. split; [reflexivity|]. split; [exact Iv|]. split; [reflexivity|].
+      cbn [op_spec o_ret o_dtor]. unfold same, arr_of. rewrite AL. cbv zeta. splits; auto.
+      destruct (N.ltb_spec (if idx <? HALF then idx else wadd idx (a_num a)) (a_mem a));
+        [apply ptr_ret_spec; assumption|apply ptr_none_spec].
+    - (* top *)
+      eexists. eexists. eexists. split; [reflexivity|]. split; [exact Iv|]. split; [reflexivity|].
+      cbn [op_spec o_ret o_dtor]. unfold same, arr_top. rewrite AL. splits; auto.
+      destruct (N.eqb_spec (a_num a) 0); [apply ptr_none_spec|].
+      rewrite wsub_eq by lia. apply ptr_ret_spec; [assumption|lia].
+    - (* end *)
+      eexists. eexists. eexists. split; [reflexivity|]. split; [exact Iv|]. split; [reflexivity|].
+      cbn [op_spec o_ret o_dtor]. unfold same, arr_end, null_ptr. rewrite AL. splits; auto.
+      destruct (v_ptr v); [right|left; reflexivity].
+      rewrite wmul_eq; [reflexivity|]. pose proof (off_lt a (a_num a) I Hn). lia.
+  Qed.
+End Steps.
+
+(** ** the buffer *)
+Lemma resize_any : forall siz sl k, 0 < siz ->
+    resize_slots siz sl (siz * k) = firstn (N.to_nat k) sl ++ repeat (junk_elem siz) (N.to_nat k - length sl).
+Proof.
+  intros siz sl k Hs. unfold resize_slots.
+  replace (siz * k / siz) with k by (rewrite N.mul_comm, N.div_mul; lia). reflexivity.
+Qed.
+
+Lemma buf_hdr_val : BUF_HDR = 24. Proof. reflexivity. Qed.
+
+Lemma buf_new_spec : forall h siz num,
+    BUF_HDR + (if siz =? 0 then 1 else siz) * num < HALF ->
+    exists h' ob ev, buf_new h siz num = (h', ob, ev)
+      /\ match ob with
+         | None => True
+         | Some b => buf_inv b /\ a_siz (b_arr b) = (if siz =? 0 then 1 else siz)
+                     /\ a_mem (b_arr b) = num /\ abs (b_arr b) = []
+         end.
+Proof.
+  intros h siz num Hpre. pose proof HALF_lt_W as HW. rewrite buf_hdr_val in *.
+  unfold buf_new. set (z := if siz =? 0 then 1 else siz) in *. rewrite !buf_hdr_val.
+  assert (Hz : 0 < z) by (unfold z; destruct (N.eqb_spec siz 0); lia).
+  rewrite wmul_eq by lia. rewrite wadd_eq by lia.
+  destruct (a_alloc h None (24 + z * num)) as [[p h'] ev].
+  destruct p as [id|]; eexists; eexists; eexists; (split; [reflexivity|]); [|exact I].
+  replace (24 + z * num - 24) with (z * num) by lia.
+  rewrite resize_any by exact Hz. cbn [firstn length app b_arr a_siz a_mem a_num a_sl].
+  rewrite firstn_nil. cbn [app]. splits; auto.
+  split; cbn [b_arr a_siz a_mem a_num a_sl].
+  - constructor; cbn [a_siz a_mem a_num a_sl]; auto.
+    + lia.
+    + unfold nlen. rewrite repeat_length. lia.
+    + lia.
+    + apply Forall_repeat, junk_ok.
+  - rewrite buf_hdr_val. lia.
+Qed.
+
+Lemma buf_setm_spec : forall h b mem, buf_inv b -> BUF_HDR + a_siz (b_arr b) * mem < HALF ->
+    exists h' b' ok ev, buf_setm h b mem = (h', b', ok, ev)
+      /\ ((ok = true /\ buf_inv b' /\ a_siz (b_arr b') = a_siz (b_arr b) /\ a_mem (b_arr b') = mem
+           /\ abs (b_arr b') = firstn (N.to_nat mem) (abs (b_arr b)))
+          \/ (ok = false /\ b' = b)).
+Proof.
+  intros h b mem [I Hb] Hpre. set (a := b_arr b) in *. pose proof HALF_lt_W as HW.
+  pose proof (inv_siz a I) as Hs. pose proof (inv_num a I) as Hn. pose proof (inv_len a I) as Hl.
+  pose proof (inv_elem a I) as He. rewrite buf_hdr_val in *.
+  unfold buf_setm. fold a. rewrite !buf_hdr_val. rewrite wmul_eq by lia. rewrite wadd_eq by lia.
+  destruct (a_alloc h (Some (b_blk b)) (24 + a_siz a * mem)) as [[p h'] ev].
+  destruct p as [id|]; eexists; eexists; eexists; eexists; (split; [reflexivity|]); [left|right; auto].
+  replace (24 + a_siz a * mem - 24) with (a_siz a * mem) by lia.
+  rewrite resize_any by exact Hs.
+  assert (Hlen : length (a_sl a) = N.to_nat (a_mem a)) by (unfold nlen in *; lia).
+  splits; cbn [b_arr a_siz a_mem a_num a_sl]; auto.
+  - split; cbn [b_arr a_siz a_mem a_num a_sl]; [|rewrite buf_hdr_val; lia].
+    constructor; cbn [a_siz a_mem a_num a_sl]; auto.
+    + destruct (N.ltb_spec mem (a_num a)); lia.
+    + unfold nlen. rewrite app_length, firstn_length, repeat_length. lia.
+    + lia.
+    + rewrite Forall_app. split; [apply Forall_firstn; assumption|apply Forall_repeat, junk_ok].
+  - unfold abs. cbn [a_num a_sl].
+    destruct (N.ltb_spec mem (a_num a)); apply nth_error_ext; intro k; ne_norm; ne_split; ne_leaf.
+Qed.
+
+Section BufSteps.
+  Variable cmp : elem -> elem -> comparison.
+  Notation le := (VecSpec.le cmp).
+  Hypothesis le_trans : forall a b c, le a b -> le b c -> le a c.
+  Hypothesis le_total : forall a b, le a b \/ le b a.
+
+  Lemma buf_inv_with : forall b a', buf_inv b -> arr_inv a' -> a_siz a' = a_siz (b_arr b) ->
+      a_mem a' = a_mem (b_arr b) -> buf_inv (bwith b a').
+  Proof. intros b a' [I P] I' Hz Hm. split; cbn [bwith b_arr]; auto. rewrite Hz, Hm. exact P. Qed.
+
+  Theorem buf_step_refines : forall h b o,
+      buf_inv b -> op_pre KBuf (a_siz (b_arr b)) o ->
+      exists h' b' r, buf_step cmp h b o = Ok (h', b', r) /\ buf_inv b'
+                      /\ step_post cmp KBuf (b_arr b) o (b_arr b') r.
+  Proof.
+    intros h b o Ib Hpre. pose proof Ib as [I Hbytes]. set (a := b_arr b) in *.
+    pose proof (inv_siz a I) as Hs. pose proof (inv_num a I) as Hn.
+    pose proof (mem_lt_half a I) as Hmh. pose proof HALF_lt_W as HW.
+    pose proof (abs_length a I) as AL. pose proof W_2HALF as HW2.
+    unfold step_post.
+    destruct o as [mem|n dt fill|z dt| | | |key0|key|idx x|x|x|idx| | |idx vs|idx cnt dt|idx|idx| |];
+      cbn [buf_step]; fold a.
+    - (* setm *)
+      cbn [op_pre] in Hpre.
+      destruct (buf_setm_spec h b mem Ib Hpre)
+        as [h1 [b1 [ok [ev [E [[-> [I1 [Z1 [M1 A1]]]]|[-> ->]]]]]]]; rewrite E.
+      + eexists. eexists. eexists. split; [reflexivity|]. split; [exact I1|]. split; [reflexivity|].
+        cbn [op_spec o_ret o_dtor]. left. fold a in Z1, A1. fin.
+      + eexists. eexists. eexists. split; [reflexivity|]. split; [exact Ib|]. split; [reflexivity|].
+        cbn [op_spec o_ret o_dtor]. right. fin.
+    - (* setn *)
+      rewrite (arr_dtor_down_spec a n dt I). cbn [bind].
+      assert (En : (if a_mem a <? n then a_mem a else n) = N.min n (a_mem a))
+        by (destruct (N.ltb_spec (a_mem a) n); lia).
+      rewrite En.
+      destruct (arr_setn_fill a (N.min n (a_mem a)) fill I ltac:(lia)) as [a3 [E3 [I3 [Z3 [M3 A3]]]]].
+      rewrite E3. cbn [bind].
+      eexists. eexists. eexists. split; [reflexivity|].
+      split; [apply buf_inv_with; assumption|]. split; [reflexivity|].
+      cbn [op_spec o_ret o_dtor bwith b_arr]. fin.
+    - (* setz *)
+      rewrite (arr_dtor_down_spec a 0 dt I). cbn [bind].
+      destruct (arr_setz_spec a z I) as [I3 [Z3 [N3 [M3 A3]]]]. cbv zeta in *.
+      set (a3 := arr_setz _ z) in *.
+      eexists. eexists. eexists. split; [reflexivity|].
+      split.
+      { split; cbn [bwith b_arr]; [exact I3|]. rewrite M3.
+        assert (0 < a_siz a3) by (apply (inv_siz a3 I3)).
+        assert (a_siz a3 * (a_mem a * a_siz a / a_siz a3) <= a_mem a * a_siz a) by (apply N.mul_div_le; lia).
+        rewrite buf_hdr_val in *. lia. }
+      split; [reflexivity|].
+      cbn [op_spec o_ret o_dtor bwith b_arr]. rewrite A3, M3, Z3. cbn [N.to_nat skipn]. fin.
+    - (* sort *)
+      destruct (arr_sort_spec cmp a I) as [a3 [E3 [I3 [Z3 [M3 A3]]]]]. rewrite E3. cbn [bind].
+      eexists. eexists. eexists. split; [reflexivity|].
+      split; [apply buf_inv_with; assumption|]. split; [reflexivity|].
+      cbn [op_spec o_ret o_dtor bwith b_arr]. fin.
+    - (* sort_fore *)
+      destruct (arr_sort_fore_spec cmp le_trans le_total a I) as [a3 [E3 [I3 [Z3 [M3 [N3 [P3 A3]]]]]]].
+      rewrite E3. cbn [bind].
+      eexists. eexists. eexists. split; [reflexivity|].
+      split; [apply buf_inv_with; assumption|]. split; [reflexivity|].
+      cbn [op_spec o_ret o_dtor bwith b_arr]. rewrite AL. fin.
+    - (* sort_back *)
+      destruct (arr_sort_back_spec cmp le_trans le_total a I) as [a3 [E3 [I3 [Z3 [M3 [N3 [P3 A3]]]]]]].
+      rewrite E3. cbn [bind].
+      eexists. eexists. eexists. split; [reflexivity|].
+      split; [apply buf_inv_with; assumption|]. split; [reflexivity|].
+      cbn [op_spec o_ret o_dtor bwith b_arr]. rewrite AL. fin.
+    - (* push_sort *)
+      cbv zeta. destruct (N.ltb_spec (a_num a) (a_mem a)) as [Hroom|Hfull].
+      + destruct (arr_push_sort_put cmp le_trans le_total a (fit (a_siz a) key0) I Hroom)
+          as [a2 [a3 [off [p [E1 [E2 [I3 [Z3 [M3 [N3 [SP [Hp [A3 [U3 C3]]]]]]]]]]]]]].
+        rewrite E1. cbn [bind]. rewrite E2. cbn [bind].
+        eexists. eexists. eexists. split; [reflexivity|].
+        split; [apply buf_inv_with; assumption|]. split; [reflexivity|].
+        cbn [op_spec o_ret o_dtor bwith b_arr vec_ptr_ret]. right.
+        rewrite C3, fit_idem. exists off, p. rewrite fit_idem in A3.
+        splits; auto; try lia.
+        * rewrite M3. exact SP.
+        * intro Hsorted. rewrite A3. unfold sp_push_sort. rewrite <- (U3 Hsorted). reflexivity.
+      + eexists. eexists. eexists. split; [reflexivity|]. split; [exact Ib|]. split; [reflexivity|].
+        cbn [op_spec o_ret o_dtor]. left. rewrite AL. fin.
+    - (* search *)
+      rewrite (arr_search_spec cmp a _ I). cbn [bind].
+      eexists. eexists. eexists. split; [reflexivity|]. split; [exact Ib|]. split; [reflexivity|].
+      cbn [op_spec o_ret o_dtor]. fin.
+    - (* insert *)
+      destruct (N.ltb_spec (a_num a) (a_mem a)) as [Hroom|Hfull].
+      + destruct (arr_insert_put' a idx x I Hroom)
+          as [a2 [a3 [off [E1 [E2 [I3 [Z3 [M3 [N3 [A3 [SP C3]]]]]]]]]]].
+        rewrite E1. cbn [bind]. rewrite E2. cbn [bind].
+        eexists. eexists. eexists. split; [reflexivity|].
+        split; [apply buf_inv_with; assumption|]. split; [reflexivity|].
+        cbn [op_spec o_ret o_dtor bwith b_arr vec_ptr_ret]. right.
+        rewrite C3. exists off. rewrite AL, M3. splits; auto; try lia.
+      + eexists. eexists. eexists. split; [reflexivity|]. split; [exact Ib|]. split; [reflexivity|].
+        cbn [op_spec o_ret o_dtor]. left. rewrite AL. fin.
+    - (* push_fore *)
+      destruct (N.ltb_spec (a_num a) (a_mem a)) as [Hroom|Hfull].
+      + destruct (arr_insert_put' a 0 x I Hroom)
+          as [a2 [a3 [off [E1 [E2 [I3 [Z3 [M3 [N3 [A3 [SP C3]]]]]]]]]]].
+        rewrite E1. cbn [bind]. rewrite E2. cbn [bind].
+        eexists. eexists. eexists. split; [reflexivity|].
+        split; [apply buf_inv_with; assumption|]. split; [reflexivity|].
+        cbn [op_spec o_ret o_dtor bwith b_arr vec_ptr_ret]. right.
+        rewrite C3. exists off. rewrite N.min_0_l in SP. rewrite M3. splits; auto; try lia.
+        rewrite A3. unfold sp_insert, clampn. rewrite N.min_0_l. reflexivity.
+      + eexists. eexists. eexists. split; [reflexivity|]. split; [exact Ib|]. split; [reflexivity|].
+        cbn [op_spec o_ret o_dtor]. left. rewrite AL. fin.
+    - (* push_back *)
+      destruct (N.ltb_spec (a_num a) (a_mem a)) as [Hroom|Hfull].
+      + destruct (arr_inc_put a x I Hroom)
+          as [a2 [a3 [off [E1 [E2 [I3 [Z3 [M3 [N3 [A3 [SP C3]]]]]]]]]]].
+        rewrite E1. rewrite E2. cbn [bind].
+        eexists. eexists. eexists. split; [reflexivity|].
+        split; [apply buf_inv_with; assumption|]. split; [reflexivity|].
+        cbn [op_spec o_ret o_dtor bwith b_arr vec_ptr_ret]. right.
+        rewrite C3. exists off. rewrite AL, M3. splits; auto; try lia.
+      + eexists. eexists. eexists. split; [reflexivity|]. split; [exact Ib|]. split; [reflexivity|].
+        cbn [op_spec o_ret o_dtor]. left. rewrite AL. fin.
+    - (* remove *)
+      destruct (arr_remove_spec a idx I) as [a3 [o3 [E3 [I3 [Z3 [M3 R3]]]]]]. rewrite E3. cbn [bind].
+      eexists. eexists. eexists. split; [reflexivity|].
+      split; [apply buf_inv_with; assumption|]. split; [reflexivity|].
+      cbn [op_spec o_ret o_dtor bwith b_arr]. splits; auto.
+      destruct R3 as [[N0 [-> ->]]|[Np [N3 [A3 [off [p [-> [SP [Hp C3]]]]]]]]].
+      + left. cbn [vec_ptr_ret]. unfold null_ptr. rewrite (abs_nil_iff a I). auto.
+      + right. split; [rewrite (abs_nil_iff a I); lia|]. split; [exact A3|].
+        exists off, p. cbn [vec_ptr_ret]. rewrite C3, M3, (abs_length a3 I3). auto.
+    - (* pull_fore *)
+      destruct (arr_remove_spec a 0 I) as [a3 [o3 [E3 [I3 [Z3 [M3 R3]]]]]]. rewrite E3. cbn [bind].
+      eexists. eexists. eexists. split; [reflexivity|].
+      split; [apply buf_inv_with; assumption|]. split; [reflexivity|].
+      cbn [op_spec o_ret o_dtor bwith b_arr]. splits; auto.
+      destruct R3 as [[N0 [-> ->]]|[Np [N3 [A3 [off [p [-> [SP [Hp C3]]]]]]]]].
+      + left. cbn [vec_ptr_ret]. unfold null_ptr. rewrite (abs_nil_iff a I). auto.
+      + right. assert (Hne : abs a <> []) by (rewrite (abs_nil_iff a I); lia).
+        destruct (sp_remove_0 (abs a) Hne) as [S1 S2].
+        split; [exact Hne|]. split; [rewrite A3; exact S1|].
+        exists off, p. cbn [vec_ptr_ret]. rewrite C3, M3, (abs_length a3 I3), S2. auto.
+    - (* pull_back *)
+      destruct (arr_pull_back_spec a I) as [a3 [o3 [E3 [I3 [Z3 [M3 R3]]]]]]. rewrite E3.
+      eexists. eexists. eexists. split; [reflexivity|].
+      split; [apply buf_inv_with; assumption|]. split; [reflexivity|].
+      cbn [op_spec o_ret o_dtor bwith b_arr]. splits; auto.
+      destruct R3 as [[N0 [-> ->]]|[Np [N3 [A3 [off [p [-> [SP [Hp C3]]]]]]]]].
+      + left. cbn [vec_ptr_ret]. unfold null_ptr. rewrite (abs_nil_iff a I). auto.
+      + right. split; [rewrite (abs_nil_iff a I); lia|]. split; [exact A3|].
+        exists off, p. cbn [vec_ptr_ret]. rewrite C3, M3, (abs_length a3 I3). auto.
+    - (* store *)
+      cbn [op_pre] in Hpre. rewrite wadd_eq by lia.
+      destruct (N.leb_spec (a_num a + nlen vs) (a_mem a)) as [Hroom|Hfull].
+      + destruct (arr_store_spec a idx vs I Hroom) as [a3 [E3 [I3 [Z3 [M3 A3]]]]].
+        rewrite E3. cbn [bind].
+        eexists. eexists. eexists. split; [reflexivity|].
+        split; [apply buf_inv_with; assumption|]. split; [reflexivity|].
+        cbn [op_spec o_ret o_dtor bwith b_arr]. right. rewrite M3. fin.
+      + eexists. eexists. eexists. split; [reflexivity|]. split; [exact Ib|]. split; [reflexivity|].
+        cbn [op_spec o_ret o_dtor]. left. rewrite AL. fin.
+    - (* erase *)
+      destruct (arr_erase_spec a idx cnt dt I) as [a3 [rc [d [E3 [I3 [Z3 [M3 R3]]]]]]]. rewrite E3. cbn [bind].
+      eexists. eexists. eexists. split; [reflexivity|].
+      split; [apply buf_inv_with; assumption|]. split; [reflexivity|].
+      cbn [op_spec o_ret o_dtor bwith b_arr]. rewrite AL. splits; auto.
+      destruct R3 as [[Hi [-> [A3 ->]]]|[Hi [-> [-> ->]]]]; [left|right]; auto.
+    - (* at *)
+      eexists. eexists. eexists. split; [reflexivity|]. split; [exact Ib|]. split; [reflexivity|].
+      cbn [op_spec o_ret o_dtor]. unfold same, arr_at. splits; auto.
+      destruct (N.ltb_spec idx (a_mem a)); [apply ptr_ret_spec; assumption|apply ptr_none_spec].
+    - (* of *)
+      eexists. eexists. eexists. split; [reflexivity|]. split; [exact Ib|]. split; [reflexivity|].
+      cbn [op_spec o_ret o_dtor]. unfold same, arr_of. rewrite AL. cbv zeta. splits; auto.
+      destruct (N.ltb_spec (if idx <? HALF then idx else wadd idx (a_num a)) (a_mem a));
+        [apply ptr_ret_spec; assumption|apply ptr_none_spec].
+    - (* top *)
+      eexists. eexists. eexists. split; [reflexivity|]. split; [exact Ib|]. split; [reflexivity|].
+      cbn [op_spec o_ret o_dtor]. unfold same, arr_top. rewrite AL. splits; auto.
+      destruct (N.eqb_spec (a_num a) 0); [apply ptr_none_spec|].
+      rewrite wsub_eq by lia. apply ptr_ret_spec; [assumption|lia].
+    - (* end *)
+      eexists. eexists. eexists. split; [reflexivity|]. split; [exact Ib|]. split; [reflexivity|].
+      cbn [op_spec o_ret o_dtor]. unfold same, arr_end, null_ptr. rewrite AL. splits; auto.
+      right. rewrite wmul_eq; [reflexivity|]. pose proof (off_lt a (a_num a) I Hn). lia.
+  Qed.
+End BufSteps.
